@@ -1,23 +1,6 @@
 // native replay for the orientation tables: evaluates the real functions on CBMC's input
 #include <cstdio>
-#include "coloquinte.hpp"
-using namespace coloquinte;
-#define CellOrientation_N CellOrientation::N
-#define CellOrientation_S CellOrientation::S
-#define CellOrientation_W CellOrientation::W
-#define CellOrientation_E CellOrientation::E
-#define CellOrientation_FN CellOrientation::FN
-#define CellOrientation_FS CellOrientation::FS
-#define CellOrientation_FW CellOrientation::FW
-#define CellOrientation_FE CellOrientation::FE
-#define CellOrientation_INVALID CellOrientation::INVALID
-#define CellOrientation_UNKNOWN CellOrientation::UNKNOWN
-#define CellRowPolarity_ANY CellRowPolarity::ANY
-#define CellRowPolarity_SAME CellRowPolarity::SAME
-#define CellRowPolarity_OPPOSITE CellRowPolarity::OPPOSITE
-#define CellRowPolarity_NW CellRowPolarity::NW
-#define CellRowPolarity_SE CellRowPolarity::SE
-#include "../prelude/spec/orient.h"
+#include "spec_cpp.h"
 #ifndef IN_p
 #define IN_p 0
 #endif
